@@ -2,21 +2,21 @@ import Bpmn.Props.C02
 import Bpmn.Gen.C02
 /-! C02 instantiated at the facts extracted from the current /repo tree (`Bpmn.Gen.C02`, regenerated on every run).
 
-Every theorem here is a dichotomy that type-checks whichever way the three facts `subscribeBeforeTrigger`,
-`monitorPerStartWith`, `waitSignalCap` point, so a repair of /repo never breaks this module; what it proves then moves
+Every theorem here is a dichotomy that type-checks whichever way the four facts `subscribeBeforeTrigger`,
+`monitorPerStartWith`, `waitSignalCap`, `boundaryEndTraceDetached` point, so a repair of /repo never breaks this module; what it proves then moves
 from the witness side to the positive side. The module stops type-checking when a fact is `none` (construct not
 found) or when the subscriber buffer capacity the witnesses are computed with (10) moved. -/
 namespace Bpmn.Props.C02
 open Bpmn.Model.Completion
 
-def factsOf : Option Bool → Option Bool → Option Nat → Option Nat → Option Facts
-  | some a, some b, some c, some d => some ⟨a, b, c, d⟩
-  | _, _, _, _ => none
+def factsOf : Option Bool → Option Bool → Option Nat → Option Nat → Option Bool → Option Facts
+  | some a, some b, some c, some d, some e => some ⟨a, b, c, d, e⟩
+  | _, _, _, _, _ => none
 
 /-- the facts of the current source -/
 def current : Facts :=
   (factsOf Bpmn.Gen.C02.subscribeBeforeTrigger Bpmn.Gen.C02.monitorPerStartWith Bpmn.Gen.C02.waitSignalCap
-    Bpmn.Gen.C02.subscribeBufCap).get (by decide)
+    Bpmn.Gen.C02.subscribeBufCap Bpmn.Gen.C02.boundaryEndTraceDetached).get (by decide)
 
 /-- the witnesses are computed with the subscriber buffer capacity of `tracer.Subscribe()` -/
 theorem current_subscribe_buffer : current.subBuf = 10 := by decide
@@ -32,10 +32,10 @@ theorem current_verdict : if C02ok current = true then C02_statement current els
 
 /-- processes with ONE start event (where one monitor per `StartWith` is one monitor) -/
 theorem current_single_start :
-    if current.subBefore = true ∧ 1 ≤ current.sigCap then C02_statementFor (current.at 1)
+    if current.subBefore = true ∧ 1 ≤ current.sigCap ∧ current.detached = false then C02_statementFor (current.at 1)
     else ¬ C02_statementFor (current.at 1) := by
   split
-  · next h => exact C02_single_start_partial _ h.1 h.2 (by rw [current_subscribe_buffer]; decide)
+  · next h => exact C02_single_start_partial _ h.1 h.2.1 (by rw [current_subscribe_buffer]; decide) h.2.2
   · next h => exact C02_single_start_cex _ current_subscribe_buffer h
 
 /-- D3: the start event's flow trace can be broadcast before the monitor subscribes -/
@@ -57,5 +57,23 @@ theorem current_expired_wait : if 1 ≤ current.sigCap then True else ExpiredWai
   split
   · trivial
   · next h => exact expired_wait_at _ (by omega) current_subscribe_buffer
+
+/-- D33: the boundary-end trace of an activity can follow the cease-flow trace -/
+theorem current_late_boundary_trace :
+    if current.detached = false then ∀ n, 1 ≤ n → ∀ s, Reachable (current.at n) s → LogStrict s.log
+    else current.subBefore = true → LateTraceWitness (current.at 1) := by
+  split
+  · next h => exact fun n hn s hr => cease_last _ hn h s hr
+  · next h => exact fun h1 => late_trace_at _ h1 (by simpa using h) current_subscribe_buffer
+
+/-- liveness alone (without the ordering of the boundary-end trace): the three facts of `complete_live` -/
+theorem current_liveness :
+    if current.subBefore = true ∧ current.perStart = false ∧ 1 ≤ current.sigCap then ∀ n, 1 ≤ n → Live (current.at n)
+    else True := by
+  split
+  · next h =>
+    exact fun n hn => complete_live _ ⟨h.1, by simp [Params.monitorsPerStartAll, Facts.at, h.2.1], h.2.2⟩
+      (by show 1 ≤ current.subBuf; rw [current_subscribe_buffer]; decide) hn
+  · trivial
 
 end Bpmn.Props.C02
